@@ -27,6 +27,10 @@ def register(add):
         decls='uint8_t *key; const uint8_t *in; size_t key_len, in_len; dig_t v;', call='nist_kdf(key, key_len, in, in_len, v)',
         replace=['md_map_sh256/md_map_sh256_k'], flags=['--object-bits', '9'], timeout=2400, tier='thorough',
         bound_note='output <= 40 bytes (2 blocks incl. a truncated tail), input <= 6 bytes; loops unwound completely; hash abstract')
+    add('nist_kdf.small', ['C14', 'C08'], 'nist_kdf', sources=KS, headers=['kdf.h', 'kdf_state.h'], defines=['VC_KDF_STATICS', 'VC_KDF_MAXOUT=34', 'VC_KDF_MAXIN=2'], conf='base', route='bounded', unwind=5,
+        decls='uint8_t *key; const uint8_t *in; size_t key_len, in_len; dig_t v;', call='nist_kdf(key, key_len, in, in_len, v)',
+        replace=['md_map_sh256/md_map_sh256_k'], flags=['--object-bits', '9', '--sat-solver', 'cadical'], timeout=900,
+        bound_note='output <= 34 bytes (a full block and a 2-byte truncated tail), input <= 2 bytes; loops unwound completely; hash abstract')
     for f in ('md_kdf', 'md_mgf'):
         add(f, ['C14'], f, sources=KS, headers=['kdf.h', 'kdf_state.h'], conf='base', route='proof', unwind=4,
             decls='uint8_t *key; const uint8_t *in; size_t key_len, in_len;', call='%s(key, key_len, in, in_len)' % f, replace=['nist_kdf'],
